@@ -223,6 +223,36 @@ def call_ilength(desc, s):
     return res
 
 
+def detect_variant():
+    """which inv_arclength is installed?  Probes (not part of the judged cases):
+       rep  — the stall exit fires (repair C07-ilength-stall-exit): the 1e5 quadratic
+              witness returns instead of raising "Maximum iterations";
+       prep — the Path branch clamps s - lsum to the segment length (repair
+              C07-path-ilength-inner-range): the three-line boundary witness returns."""
+    from svgpathtools import QuadraticBezier, Path, Line
+    with warnings.catch_warnings():
+        warnings.simplefilter('ignore')
+        q = QuadraticBezier(0, 1e5 + 1e5j, 2e5)
+        try:
+            guarded(lambda: q.ilength(229558.7149392638 / 3), 20)
+            rep_ = True
+        except Exception:
+            rep_ = False
+        p = Path(Line(0, 0.1), Line(0.1, 0.1 + 0.2j), Line(0.1 + 0.2j, 1 + 0.2j))
+        try:
+            guarded(lambda: p.ilength(0.1 + 0.2), 20)
+            prep_ = True
+        except Exception:
+            prep_ = False
+    return rep_, prep_
+
+
+REQUIRED = {'rep': ['C07_returns_partial', 'C07_stall_repaired_returns', 'C07_repaired_witness'],
+            'prep': ['C07_path_total_partial', 'C07_path_total', 'C07_path_boundary_repaired_witness'],
+            'always': ['C07_stall_refuted', 'C07_path_boundary_refuted', 'C07_result', 'C07_terminates', 'C07_ends',
+                       'C07_range', 'C07_monotone', 'C07_path']}
+
+
 def fl(x):
     """Coq PrimFloat literal of a Python float"""
     x = float(x)
@@ -243,6 +273,9 @@ From Coq Require Import PrimFloat.
 From SVP Require Import Base.FloatK Model.Length.
 Open Scope float_scope.
 Definition tol : float := 0x1.19799812dea11p-40.          (* ILENGTH_S_TOL = 1e-12 *)
+(* which variant of the code is installed (detected by the harness's probes) *)
+Definition REP : bool := @REP@.
+Definition PREP : bool := @PREP@.
 Definition table : Type := list (float * float).
 Fixpoint lookup (tb : table) (t : float) : float :=
   match tb with
@@ -259,10 +292,10 @@ Definition t2T (bounds : list (float * float)) (k : nat) (t : float) : float :=
 Definition run (c : casety) : ires (K:=float) :=
   let '(segs, bounds, is_path, L, s, code, et) := c in
   if is_path then
-    inv_arclength_path NumF false (t2T bounds)
+    inv_arclength_path NumF REP PREP (t2T bounds)
       (map (fun x => (fst (fst x), lookup (snd (fst x)), snd x)) segs) L s tol 10000
   else match segs with
-       | (il, tb, _) :: _ => inv_arclength_seg NumF false il (lookup tb) L s tol 10000
+       | (il, tb, _) :: _ => inv_arclength_seg NumF REP il (lookup tb) L s tol 10000
        | nil => EAssert
        end.
 Definition ok (c : casety) : nat :=
@@ -316,6 +349,16 @@ def run(rep, tier, seed, replay=None):
     np.seterr(all='ignore')
     with common.Scratch() as tmp:
         common.std_static(rep, 'C07', (), (), tmp)
+        v_rep, v_prep = detect_variant()
+        rep.cov['variant'] = {'stall_exit_repaired(rep)': v_rep, 'path_clamp_repaired(prep)': v_prep}
+        need = REQUIRED['always'] + (REQUIRED['rep'] if v_rep else []) + (REQUIRED['prep'] if v_prep else [])
+        missing = [t for t in need if t not in rep.cov.get('theorems', [])]
+        rep.cov['required_theorems'] = need
+        if missing:
+            rep.violation('Props/C07.v lacks the theorems required for the installed variant: %s' % missing,
+                          {'kind': 'theorem', 'missing': missing, 'variant': rep.cov['variant']},
+                          found_input=False, key='props')
+        okdef = OKDEF.replace('@REP@', 'true' if v_rep else 'false').replace('@PREP@', 'true' if v_prep else 'false')
         if replay:
             r = json.load(open(replay))['replay']
             curves = [desc_from_json(r['curve'])]
@@ -427,7 +470,7 @@ def run(rep, tier, seed, replay=None):
         texts = []
         shard = 40
         for i in range(0, len(terms), shard):
-            texts.append(HEADER + OKDEF + '\nDefinition the_cases : list casety :=\n [%s].\n' % ';\n  '.join(terms[i:i + shard]) +
+            texts.append(HEADER + okdef + '\nDefinition the_cases : list casety :=\n [%s].\n' % ';\n  '.join(terms[i:i + shard]) +
                          'Eval vm_compute in (run_cases ok the_cases).\n')
         res = common.run_case_files(texts, tmp, prefix='cases_c07', timeout=900)
         agree = 0
